@@ -16,7 +16,7 @@ from fractions import Fraction
 import numpy as np
 
 from .. import core
-from ..core import Check, MachineryError, run_tlc, scratch
+from ..core import pyf, Check, MachineryError, run_tlc, scratch
 
 ULP = 2.0 ** -52
 
@@ -37,7 +37,7 @@ def measure():
         f = getattr(cp, h)
         impls[(h, "py_jit_scalar")] = f
         impls[(h, "py_jit_array")] = (lambda f: lambda x, *a: float(f(np.array([x, x]), *a)[1]))(f)
-        impls[(h, "py_func")] = f.py_func
+        impls[(h, "py_func")] = pyf(f)
         impls[(h, "cy")] = getattr(cx, h)
     gens = {"TWO_PI": {"2pi": 2 * math.pi}, "DAY": {"86400": 86400.0},
             "AU": {"1.496e11": 1.496e11, "149597870700": 149597870700.0},
